@@ -699,3 +699,64 @@ def functools_reduce_mul(fs: list):
 
 def rng_free_coin(a, b) -> bool:
     return (len(repr(a)) + len(repr(b))) % 3 != 0
+
+
+def directed_shapes(rng: random.Random, root: str, mentioned: list[str], ints: list[int], count: int) -> list[tuple[str, object]]:
+    """expressions rooted at class ``root`` whose children are built mostly from the classes a (new, unmodelled)
+    rewrite rule's source mentions, with the parameters it mentions: the shapes such a rule is about"""
+    pool = [k for k in mentioned if k in ALL] or list(ALL)
+    ns = [k for k in ints if 1 <= k <= 64] or [2, 3]
+    V, C = X.Variable, X.Constant
+
+    def leaf():
+        return rng.choice([V("x"), V("y"), V("x"), C(float(rng.choice([0, 1, 2, -1, 3]))), V("z")])
+
+    def build(depth: int, top: str | None = None):
+        if depth <= 0:
+            return leaf()
+        c = top or (rng.choice(pool) if rng.random() < 0.8 else rng.choice(ALL))
+        sub = lambda: build(depth - 1) if rng.random() < 0.75 else leaf()  # noqa: E731
+        n = rng.choice(ns) if rng.random() < 0.8 else rng.choice(NS)
+        if c in ("Add", "Multiply"):
+            return getattr(X, c)(*[sub() for _ in range(rng.randint(2, 4))])
+        if c in ("Minus", "Divide", "Power"):
+            return getattr(X, c)(sub(), sub())
+        if c in ("NthPower", "NthRoot"):
+            return getattr(X, c)(sub(), n)
+        if c == "Exponential":
+            return X.Exponential(sub(), base=rng.choice(EXP_BASES + [float(k) for k in ns if k > 1]))
+        if c == "Logarithm":
+            return X.Logarithm(sub(), base=rng.choice(LOG_BASES + [float(k) for k in ns if k > 1]))
+        return getattr(X, c)(sub())
+
+    PLAIN = ("Negation", "Reciprocal", "Cosine", "Sine")
+
+    def variation(e):
+        """``e`` with the class of one plain unary node swapped for another one the rule mentions (sin(u)**2 -> cos(u)**2)"""
+        from . import wire
+        toks = wire.expr(e).split(" ")
+        heads = {wire.HEAD[k]: k for k in PLAIN if k in wire.HEAD}
+        sites = [i for i, t in enumerate(toks) if t in heads and (i == 0 or toks[i - 1] not in ("V",))]
+        others = [k for k in pool if k in PLAIN] or list(PLAIN)
+        if not sites:
+            return build(2)
+        i = rng.choice(sites)
+        new = rng.choice([k for k in others if wire.HEAD[k] != toks[i]] or others)
+        toks[i] = wire.HEAD[new]
+        return wire.build_raw(" ".join(toks))
+
+    def family(depth: int):
+        """an n-ary root whose operands are related: a fresh one, variations of earlier ones, repeats of earlier ones"""
+        kids = [build(depth - 1)]
+        for _ in range(rng.randint(1, 4)):
+            r = rng.random()
+            kids.append(variation(rng.choice(kids)) if r < 0.45 else rng.choice(kids) if r < 0.7 else build(depth - 1))
+        rng.shuffle(kids)
+        return getattr(X, root)(*kids)
+
+    out = []
+    for i in range(count):
+        e = family(3) if root in ("Add", "Multiply") and i % 2 else build(2 + i % 2, top=root)
+        out.append((f"directed:{root}", e if i % 3 else X.Multiply(V("w"), e)))
+    return out
+
